@@ -38,15 +38,25 @@ RULE = ("every set of 1-3 distinct strict orders over 3 alternatives (dynamic pr
         "7 <= m <= 10, n <= 8; DP: m <= 12): certificates + lower bound from the best of 3 embedded 5-alternative "
         "cores (opt_restrict_mono) + upper bound from the planted certificate (cert_valid_bound). ILP budget: 150 "
         "calls quick, 2000 thorough. non-trivial = reference optimum (voters or alternatives) >= 1 "
-        "(large instances: some reported optimum >= 1)")
-EXHAUSTIVE = {"quick": "k_alternative_deletion on every set of 1-3 distinct strict orders over 3 alternatives",
+        "(large instances: some reported optimum >= 1). Encoding cases (c12.enc, no solver call): for each of the three "
+        "ILP functions the variables/bounds, the multiset of constraints and the objective of the python-mip model = "
+        "the mirrored model of Model/ILPEnc.v, on every profile of 1-2 weak orders over m <= 2 (thorough: m <= 3) "
+        "alternatives and random soc/toc profiles m <= 5, n <= 4; non-trivial = m >= 3 and a non-empty constraint list")
+EXHAUSTIVE = {"quick": "k_alternative_deletion on every set of 1-3 distinct strict orders over 3 alternatives; ILP "
+                       "encodings (3 functions) on every profile of 1-2 distinct weak orders over m <= 2 alternatives and "
+                       "every single weak order over 3",
               "thorough": "k_alternative_deletion and both ILPs on every set of 1-3 distinct strict orders over 3 "
                           "alternatives; both ILPs on every set of 1-2 distinct weak orders over 3 alternatives that "
-                          "contains a tie"}
-TRUSTED = ["(R) not verified, compared with the verified references min_vot_del / min_alt_del on bounded inputs and "
-           "through the verified certificate checkers cert_vot / cert_alt at every size: approx_SP_voter_deletion_ILP, "
-           "approx_SP_alternative_deletion_ILP (constraint builders + python-mip/CBC, max_gap 0.05), "
-           "k_alternative_deletion / longest_single_peaked_axis (dynamic programme)"]
+                          "contains a tie; ILP encodings (3 functions) on every profile of 1-2 distinct weak orders "
+                          "over m <= 3 alternatives"}
+TRUSTED = ["the solver: python-mip 2.0 / CBC returns an optimal feasible assignment of the model it is given (within "
+           "max_gap 0.05, which cannot hide a unit below 20 alternatives) and int(v.x) recovers the integer values; the "
+           "constraint builders, variable declarations and objectives of is_single_peaked_ILP, "
+           "approx_SP_voter_deletion_ILP and approx_SP_alternative_deletion_ILP are MIRRORED (Model/ILPEnc.v), proved sound "
+           "and complete for every size (Proofs/ILPEnc.v) and compared with the model python-mip receives (c12.enc)",
+           "(R) not verified: k_alternative_deletion / longest_single_peaked_axis (dynamic programme) - compared with the "
+           "verified reference min_alt_del on bounded inputs and through the verified checker cert_alt at every size; "
+           "the three ILP functions are additionally compared end-to-end (objective = reference, certificates)"]
 ASSUMPTIONS = ["orders are complete over the instance's alternatives with non-empty classes; instance.orders holds "
                "distinct orders; the objective is unweighted (one unit per distinct order / per alternative); fewer than "
                "20 alternatives (quantifier of C12)"]
